@@ -4,6 +4,8 @@ package main
 
 import (
 	"fmt"
+	"regexp"
+	"strconv"
 	"go/ast"
 	"go/token"
 	"go/types"
@@ -384,15 +386,58 @@ func (e *Exec) modifiedBy(lp *loopParts) (map[interface{}]bool, map[string]bool,
 		logStart[k] = len(ws)
 	}
 	e.freshOnly = map[string]bool{}
+	e.invLocs = map[string][]string{}
+	lastIterN := e.n
+	lastIterLog := map[string]int{}
 	defer func() {
 		// classify modified keys: written only at objects allocated inside the loop body?
 		fo := map[string]bool{}
+		il := map[string][]string{}
 		for k := range modH {
 			if e.onlyFreshWrites(k, logStart[k]) {
 				fo[k] = true
+				continue
+			}
+			// written only at locations that do not depend on anything the loop changes? Then only those
+			// locations are havoc'd (terms of the last dry iteration, in which every modified variable had a
+			// fresh name numbered above lastIterN)
+			ws := e.writes[k]
+			from := lastIterLog[k]
+			if from > len(ws) {
+				from = len(ws)
+			}
+			ok := len(ws[from:]) > 0
+			seen := map[string]bool{}
+			var locs []string
+			for _, w := range ws[from:] {
+				if w == "*" {
+					ok = false
+					break
+				}
+				if e.isFreshTerm(w) {
+					continue
+				}
+				if !invariantTerm(w, lastIterN) {
+					ok = false
+					break
+				}
+				if !seen[w] {
+					seen[w] = true
+					locs = append(locs, w)
+				}
+			}
+			// every earlier dry iteration must agree (same invariant locations or fresh)
+			for _, w := range ws[logStart[k]:from] {
+				if w == "*" || (!e.isFreshTerm(w) && !seen[w]) {
+					ok = false
+				}
+			}
+			if ok {
+				il[k] = locs
 			}
 		}
 		e.freshOnly = fo
+		e.invLocs = il
 		// the log entries of the dry run stay (they over-approximate the real run)
 	}()
 	saved := e.st
@@ -405,6 +450,10 @@ func (e *Exec) modifiedBy(lp *loopParts) (map[interface{}]bool, map[string]bool,
 	savedRets := len(fr.rets)
 	savedDefers := len(fr.defers)
 	for iter := 0; iter < 4; iter++ {
+		lastIterN = e.n
+		for k, ws := range e.writes {
+			lastIterLog[k] = len(ws)
+		}
 		start := saved.clone()
 		e.st = start
 		// havoc what we know so far
@@ -506,6 +555,16 @@ func (e *Exec) havocSet(modV map[interface{}]bool, modH map[string]bool, allocCh
 			continue
 		}
 		old := e.heapGet(k, sort)
+		if locs, ok := e.invLocs[k]; ok && e.dry == 0 {
+			// only these (loop-invariant) locations are written by the loop
+			cur := old
+			elem := sort[len("(Array Int ") : len(sort)-1]
+			for _, l := range locs {
+				cur = mkStore(cur, l, e.fresh("hl", elem))
+			}
+			e.st.heap[k] = cur
+			continue
+		}
 		n := e.fresh("Hh."+k, sort)
 		e.st.heap[k] = n
 		if e.freshOnly[k] && e.dry == 0 {
@@ -994,6 +1053,16 @@ func (e *Exec) execGo(s *ast.GoStmt) {
 	}
 	e.recordCallEvent(s.Call, nil, nil)
 	if lit, ok := s.Call.Fun.(*ast.FuncLit); ok {
+		// spawn-requires: the preconditions of a goroutine body with its own contract hold when it is started
+		if k, ok := e.litOrd[lit]; ok && e.contract != nil {
+			if cct := e.topContractClosures()[k]; cct != nil {
+				env := e.loopEnv()
+				env.scopePos = lit.Body.Lbrace + 1
+				for i, r := range cct.Requires {
+					e.oblige(fmt.Sprintf("spawn-pre closure%d.%d", k, i), "call-pre", r.Text, e.specBool(r, env))
+				}
+			}
+		}
 		// variables assigned by the goroutine body are havoc'd (they may change at any time)
 		assigned := map[types.Object]bool{}
 		ast.Inspect(lit.Body, func(n ast.Node) bool {
@@ -1056,4 +1125,17 @@ func (e *Exec) finishReturn(fr *Frame, s *ast.ReturnStmt) {
 	dead := e.st.clone()
 	dead.pc = tFalse
 	e.st = dead
+}
+
+var bangNum = regexp.MustCompile(`!(\d+)`)
+
+// invariantTerm: the term mentions no symbol created after counter value n.
+func invariantTerm(t string, n int) bool {
+	for _, m := range bangNum.FindAllStringSubmatch(t, -1) {
+		k, _ := strconv.Atoi(m[1])
+		if k > n {
+			return false
+		}
+	}
+	return true
 }
